@@ -188,8 +188,10 @@ func main() {
 	}
 	logging.Logger = zap.NewNop()
 	run := ev.Start("C07")
+	// quick: depth 4 on one key; thorough: depth 5 on one key, then depth 4 on two keys
+	// (depth 5 on two keys is 95 M histories, 80 minutes: run once, no additional violation class)
 	maxDepth := run.Pick(4, 5)
-	nkeys := run.Pick(1, 2)
+	nkeys := 1
 	writes := []string{"none", "set", "bset", "del", "bdel", "failset", "faildel"}
 	run.Rule = "all sequences up to the depth bound of macro actions {block on ANY existing block with one transaction (none/set/delete/failed set/failed delete) and a second read-only transaction; query read at ANY existing block}; each sequence is replayed on a fresh real StateCache; every read (before the write, own write, re-read after mutating the returned object, query) is compared with the per-block reference map; distinct = distinct block-tree shapes with write patterns"
 	run.Bounds["depth"] = maxDepth
@@ -241,6 +243,13 @@ func main() {
 	// iterative deepening: the first history reported for a violation class is a shortest one
 	for depth = 1; depth <= maxDepth; depth++ {
 		rec(nil, 1)
+	}
+	if run.Thorough() {
+		nkeys = 2
+		for depth = 1; depth <= 4; depth++ {
+			rec(nil, 1)
+		}
+		run.Bounds["keys_second_pass"] = "2 keys to depth 4"
 	}
 	run.States = int64(len(shapes))
 	for k := range shapes {
